@@ -46,7 +46,7 @@ def main():
                 verdict = {0: "MISSED", 1: "detected", 2: "harness-error"}.get(r.returncode, f"exit{r.returncode}")
                 rec = {"seed": sd, "property": prop, "verdict": verdict, "wall_s": round(time.time() - t0, 1), "tags": tags,
                        "what": meta.get("what_changed", "")[:300]}
-                print(json.dumps(rec)[:900], flush=True)
+                print("SEEDRESULT " + json.dumps({k: rec[k] for k in ("seed", "property", "verdict", "wall_s")} | {"tags": [t[:160] for t in tags[:2]]}), flush=True)
                 if verdict == "harness-error":
                     print(r.stderr[-800:])
                 results = [x for x in results if not (x["seed"] == sd and x["property"] == prop)] + [rec]
